@@ -136,7 +136,7 @@ def _outcome_case(cid, k, res, ref):
         lines.pop()
     lines = [l + "\n" for l in lines]
     prios = [prio_of(l.split("\t")[0]) for l in lines]
-    return {"id": cid, "R": k["R"], "faults": res["faults"], "early": res.get("early", 0), "end": res["end"], "end_detail": res["end_detail"], "prios": prios,
+    return {"id": cid, "R": k["R"], "faults": res["faults"], "early": res.get("early", 0), "natural": res.get("natural", 0), "poison": bool(k.get("poison")), "end": res["end"], "end_detail": res["end_detail"], "prios": prios,
             "lines": lines, "ref": ref, "diverged": res["diverged"]}
 
 
@@ -302,7 +302,12 @@ def explore_config(ctx, k, n_random_walks, n_random_sched, max_tour=None):
     cases = pool_map(random_job, rjobs, chunk=4)
     ctx.evaluations += len(cases)
     trp = write_cfg(ctx, k, False)
-    verdicts = ctx.validate("Check_Realign", cases, cfg=trp)
+    # a run that the scheduler gave up on (no termination within the step budget, a hang, a stuck worker) is not folded
+    # step by step - thousands of events - but goes straight to the outcome judgement below
+    endless = {c["id"]: "run_" + e["t"].lower() for c in cases for e in c["trace"][-1:] if e["t"] in ("HANG", "LIVELOCK", "STUCK")}
+    endless.update({c["id"]: "run_too_long" for c in cases if len(c["trace"]) > 1500 and c["id"] not in endless})
+    verdicts = ctx.validate("Check_Realign", [c for c in cases if c["id"] not in endless], cfg=trp)
+    verdicts.update(endless)
     redo = []
     for c in cases:
         v = verdicts[c["id"]]
@@ -333,7 +338,7 @@ def real_mp_tier(ctx, R, B, C, kill_at=None, delay=None, bgzf_aligned=False):
     if delay:
         env["VERIF_REALMP_DELAY"] = delay
     driver = os.path.join(os.path.dirname(os.path.dirname(os.path.abspath(__file__))), "realmp_driver.py")
-    cmd = [sys.executable, driver, gaf, gfa, fa, out, str(C), "" if kill_at is None else f"{kill_at[0]}:{kill_at[1]}:{kill_at[2]}"]
+    cmd = [sys.executable, driver, gaf, gfa, fa, out, str(C), "" if kill_at is None else ":".join(str(x) for x in kill_at)]
     try:
         p = subprocess.run(cmd, env=env, capture_output=True, text=True, timeout=60 if R < 1000 else 300)
         rc = p.returncode
